@@ -18,7 +18,15 @@
         d2     = data - mean                      (new mean)
         M2    += sum(d1 * d2, axis=0)
     Preconditions of the model (stated in the theorems / respected by the generator): all batches of
-    one adaptation round have the same width.  No proofs in this file.                          *)
+    one adaptation round have the same width.  No proofs in this file.
+
+    NUMERIC VALUES ONLY.  The model takes the summaries as the rational numbers they denote: it has no
+    storage dtype (float32/float64, int8..int64, uint8..uint64, bool, or a mix of them across the
+    batches of a round all denote numbers) and no absolute scale (no floor, ceiling or threshold on
+    [scale2]: [scale_mat] below and Proofs/C12_Units.v - data expressed in another unit, [c * data],
+    has [scale2] multiplied by [c * c] and weights divided by it, for every [c], however small or
+    large).  The correspondence check therefore hands the implementation the same numbers in every
+    storage dtype and at units 2^-100 .. 2^100 and compares with this one model.                  *)
 From Coq Require Import String.
 From Coq Require Import ZArith QArith Qabs List Bool Arith.
 From Elfi Require Import Num.Distance.
@@ -52,6 +60,9 @@ Definition add_data (st : store) (data : mat) : store :=
   let mean' := map (fun j => col_mean (Qn n') (bget (s_mean st) j) (col j data)) js in
   let m2' := map (fun j => col_m2 (bget (s_mean st) j) (nth j mean' 0) (bget (s_m2 st) j) (col j data)) js in
   {| s_n := n'; s_mean := BVec mean'; s_m2 := BVec m2' |}.
+
+(** the same data expressed in another unit: every entry multiplied by [c] *)
+Definition scale_mat (c : Q) (m : mat) : mat := map (map (Qmult c)) m.
 
 (** [state['scale']**2 = store[2] / store[0]] *)
 Definition scale2_of (st : store) : list Q :=
